@@ -338,7 +338,10 @@ class SourceModel:
         return lst[0] if lst else None
 
     def subclasses(self, name: str) -> List[ClassInfo]:
-        return [c for m in self.modules.values() for c in m.classes.values() if c.is_subclass_of(name)]
+        cache = self.__dict__.setdefault('_sub_cache', {})
+        if name not in cache:
+            cache[name] = [c for m in self.modules.values() for c in m.classes.values() if c.is_subclass_of(name)]
+        return cache[name]
 
     # ---------------------------------------------------------------- functions
     def _collect_functions(self):
